@@ -412,7 +412,10 @@ func (e *c09env) runFaulted(s session, plan netfx.Plan, kase *c09case) (f failur
 					time.Sleep(time.Millisecond)
 				}
 			}
-		case <-time.After(faultBound):
+		case <-time.After(2 * time.Second):
+			// the connect routine never came by (an auto-connect client dials as soon as it is created):
+			// the run continues as an ordinary one
+			ev.Label(c09, "connect-routine-trap-not-reached", 1)
 		}
 		preset = &presetClient{cl0, close0}
 	}
